@@ -632,8 +632,8 @@ func (e *Exec) tryMerge(fr *Frame, b *ssa.BasicBlock, c *Term) *ssa.BasicBlock {
 		vb, vs := e.get(fr, p.Edges[ib]), e.get(fr, p.Edges[is])
 		tb, ok1 := vb.(*Term)
 		ts, ok2 := vs.(*Term)
-		if !ok1 || !ok2 || tb.S != ts.S {
-			return nil
+		if !ok1 || !ok2 || tb.S != ts.S || tb.S.K != SBool {
+			return nil // only boolean joins (&&, ||) are merged: other values stay concrete per path
 		}
 		if sideOnTrue {
 			out = append(out, pv{p, Ite(c, ts, tb)})
